@@ -178,6 +178,20 @@ def replay(path):
         data = json.load(f)
     rp = data["replay"]
     wd = common.workdir("replay_tmp", fresh=True)
+    if "cfg" not in rp:
+        # solo-history failure: the solo calls forward on fresh objects vs backward on one object
+        fw = [{"name": "solo", "inputs": [s], "n_jobs": 1, "threshold": 0, "fresh": True} for s in rp["inputs"]]
+        out = {}
+        for tag, runs in (("fw", fw), ("bw", [dict(r, fresh=False) for r in reversed(fw)])):
+            pf = os.path.join(wd, "plan_%s.json" % tag)
+            with open(pf, "w") as f:
+                json.dump({"runs": runs}, f)
+            lg = os.path.join(wd, "%s.ndjson" % tag)
+            common.run_driver("drv_pipeline", [pf, lg])
+            out[tag] = {e["argstr"]: _row(e) for e in common.read_ndjson(lg) if e["ev"] == "row"}
+        diff = [k for k in out["fw"] if out["bw"].get(k) != out["fw"][k]]
+        print("solo results that depend on earlier calls:", diff)
+        return 1 if diff else 0
     cfg = rp["cfg"]
     bs = cfg.get("batch_size")
     runs = [{"name": "solo", "inputs": [s], "n_jobs": 1, "threshold": 0} for s in rp["inputs"]]
